@@ -56,6 +56,8 @@ def header_cases(tier):
         "plain": [("printv", "i")],
         "inc": [("printv", "i"), ("let", "n", ("bin", "+", ("var", "n"), ("int", 1))),
                 ("if", ("bin", "<", ("var", "n"), ("int", 3)), [("let", "i", ("bin", "+", ("var", "i"), ("int", 1)))], None)],
+        "setnull": [("printv", "i"), ("let", "n", ("bin", "+", ("var", "n"), ("int", 1))),
+                    ("if", ("bin", "==", ("var", "n"), ("int", 2)), [("let", "i", ("nullint",))], None)],
         "dec": [("printv", "i"), ("let", "n", ("bin", "+", ("var", "n"), ("int", 1))),
                 ("if", ("bin", "==", ("var", "n"), ("int", 2)), [("let", "i", ("bin", "-", ("var", "i"), ("int", 1)))], None)],
     }
